@@ -77,6 +77,7 @@ func C12(r *core.Run) {
 		// programs: every entry of <= MaxTok tokens whose output carries a character that matters for embedding, plus the C11 menu as literals
 		seen := map[string]bool{}
 		var progs [][2]string // program text, generated regex
+		var forced [][2]string
 		add := func(text string) {
 			g := root.Generate(text)
 			if g.Kind != inproc.OK || g.Out == "" || seen[g.Out] {
@@ -87,6 +88,13 @@ func C12(r *core.Run) {
 			}
 			seen[g.Out] = true
 			progs = append(progs, [2]string{text, g.Out})
+		}
+		// programs that are taken whatever they generate (also the empty expression); they come first
+		force := func(text string) {
+			if g := root.Generate(text); g.Kind == inproc.OK && !seen["\x00"+text] {
+				seen["\x00"+text] = true
+				forced = append(forced, [2]string{text, g.Out})
+			}
 		}
 		for _, e := range enumEntries(c02Tokens, in.MaxTok) {
 			add(strings.Join(e, "") + "\n")
@@ -101,6 +109,11 @@ func C12(r *core.Run) {
 		for _, t := range []string{`a"@rx b`, `a" \\b`, `"@rx `, `x" \\`, ` a b `, `a$1b`, `^a|b$`, `"`, `\\`, `a"`, `"a`, `" \\" \\`, `"!@rx q" \\`, "id:123456"} {
 			add(t + "\n")
 		}
+		// a byte order mark before the first entry; programs that generate the empty expression
+		for _, t := range []string{"\ufefffoo\nbar\n", "\ufeff##! c\nfoo\n", "##! only a comment\n", "##!> define unused x\n\n", ""} {
+			force(t)
+		}
+		progs = append(forced, progs...)
 		idx := 0
 		for _, p := range progs {
 			for _, sh := range c12Shapes() {
@@ -113,6 +126,13 @@ func C12(r *core.Run) {
 				o.Programs++
 				text, regex := p[0], p[1]
 				r.Inflight(sh.Name + ":" + text)
+				if useCLI {
+					// "equals generate's output": the generate command itself is asked
+					os.WriteFile(filepath.Join(wd, "regex-assembly", sh.Arg+".ra"), []byte(text), 0o644)
+					if g := core.RunCLI(r.Crs, wd, "", nil, "-d", wd, "regex", "generate", sh.Arg); g.Exit == 0 {
+						regex = g.Stdout
+					}
+				}
 				fail := func(clause, why, stored, mode string) {
 					o.Fails = append(o.Fails, c12Fail{clause, text, sh.Name, regex, stored, why, mode})
 				}
